@@ -3,3 +3,7 @@ add("C12", "exhaustive enumeration of short trajectories + Hypothesis, against a
     "Every trajectory up to length 7 (8 thorough) over a small alphabet with NaN, every tau and both window modes is compared entry-wise with a naive implementation of the stated counting rule, plus the derived laws (row sums, [0,1], detailed balance, reversal); random long trajectories extend this to many cells and large tau. Exploration, not proof: bounds are the enumeration length and the random sizes.",
     "Trusted: numpy, the 15-line naive counter in props/c12.py. Assumes cell indices < total_num_cells.",
     "DESIGN.md section 5, C12")
+add("C01", "Hypothesis-generated inputs against a dense reference evaluation of the formula + metamorphic relations",
+    "Random symmetric patterns (incl. disconnected, isolated rows, empty), positive S/h/V over six decades, energies incl. pairs at and beyond the cap, all storage forms the package produces; every entry compared with a dense numpy evaluation of the stated capped formula (rtol 1e-10), zero row sums, detailed balance in log form, invariance under energy shift, linearity in D, storage-form independence. Exploration: thousands (quick) to 160 000 (thorough) generated inputs, n <= 14.",
+    "Trusted: numpy/scipy.sparse constructors, the 10-line dense reference. T is kept high enough that the capped exponent stays inside float64 (the property does not claim finite results beyond).",
+    "DESIGN.md section 5, C01")
